@@ -99,6 +99,13 @@ func NewReport(e Env, engine string) *Report {
 	if e.Deadline > 0 {
 		r.deadline = r.start.Add(e.Deadline)
 	}
+	// environment dimension: the process's local time zone. Every second shard (and any run with
+	// VERIF_TZ=1) works in a zone 5 h 30 min east of UTC; nothing the properties talk about may
+	// depend on it (block times are instants).
+	if e.ShardI%2 == 1 || os.Getenv("VERIF_TZ") == "1" {
+		time.Local = time.FixedZone("verif+0530", 5*3600+1800)
+		r.Extra["local_zone"] = "UTC+05:30"
+	}
 	if m := os.Getenv("VERIF_REPLAY_MATCH"); m != "" {
 		var rf struct {
 			Replay any `json:"replay"`
